@@ -5,11 +5,13 @@
     reals; algebra of the second-moment recurrence of a full step (Model/Moments2.v).
     Only statements closed by [exact]; proofs in Proofs/FokkerPlanckP.v, SpreadP.v, SpreadR.v.
 
-    NOT carried by a theorem (explored by the check on the implementation only): that the recurrence
-    of Model/Moments2.v is what RF kick and drift do to the grid moments (needs the kick family's
-    quadratic moment transport), the contraction of the coupled 3x3 system, the 4-point stencil's
-    moments, and the truncation at the grid border over histories longer than the distance of the
-    support from the border (the closed form below holds as long as the support stays interior). *)
+    Second wave (end of this file): the recurrence of Model/Moments2.v as a theorem about the grid model
+    (RF kick, drift, 3-point FP), its fixed point, contraction and J per step.
+
+    NOT carried by a theorem (explored by the check on the implementation only): contraction for overdamped
+    settings (e1 > a), the 4-point stencil's moments, and the truncation at the grid border over histories
+    longer than the distance of the support from the border (the closed forms hold as long as the support
+    stays interior). *)
 From Coq Require Import List ZArith QArith Qcanon Reals Lia.
 From Inovesa Require Import Base.FieldKit Base.Float32 Base.RInst Base.Sums Gen.Gen_FPStencil
   Model.FokkerPlanck Model.Moments2 Proofs.FPGridP Proofs.FokkerPlanckP Proofs.FPMomentsP Proofs.SpreadP Proofs.SpreadR
